@@ -124,12 +124,14 @@ def main(tier, seed, replay):
             elif os.path.exists(ff):
                 with open(ff) as fh:
                     body = fh.read()
-                dst = os.path.join(engine.REPLAY_DIR, "C11-%s.txt" % engine.case_hash(body))
+                os.makedirs(engine.NEW_REPLAY_DIR, exist_ok=True)
+                dst = os.path.join(engine.NEW_REPLAY_DIR, "C11-%s.txt" % engine.case_hash(body))
                 with open(dst, "w") as fh:
                     fh.write(body)
                 os.unlink(ff)
             else:
-                dst = os.path.join(engine.REPLAY_DIR, "C11-crash-%s-%s.log" % (name, kind))
+                os.makedirs(engine.NEW_REPLAY_DIR, exist_ok=True)
+                dst = os.path.join(engine.NEW_REPLAY_DIR, "C11-crash-%s-%s.log" % (name, kind))
                 with open(dst, "w") as fh:
                     fh.write(" ".join(argv) + "\n" + (env or {}).get("RC_PARAMS", "") + "\n" + out[-3000:] + "\n" + err[-6000:])
             violations.append((dst, name, kind, (out[-600:] + err[-600:])))
@@ -155,6 +157,6 @@ def main(tier, seed, replay):
                 continue
             seen.add(dst)
             print("detail: build=%s leg=%s %s" % (name, kind, tail.replace("\n", " | ")[:600]))
-            print("VIOLATION property=%s replay=%s" % (ID, os.path.relpath(dst, engine.VERIF)))
+            print("VIOLATION property=%s replay=%s" % (ID, os.path.relpath(dst, engine.VERIF) if dst.startswith(engine.VERIF) else dst))
         return 1
     return 0
